@@ -20,7 +20,8 @@ class CallSpec:
         self.bad_keyword = bad_keyword     # one `$x => v` argument (not a keyword): translation error
 
     def desc(self):
-        return {'args': self.args, 'kwargs': self.kwargs, 'method': self.method, 'bad_keyword': self.bad_keyword}
+        return {'args': self.args, 'kwargs': self.kwargs, 'method': self.method, 'bad_keyword': self.bad_keyword,
+                'limit': getattr(self, 'limit', False)}
 
 
 def is_const(a):
